@@ -682,6 +682,8 @@ func (c *codegen) pickVarsFromNodes(nodes []nodeContext, markAsUsed func(name st
 							nextExprToCheck = append(nextExprToCheck, val.derive(t))
 						case *ast.SelectorExpr: // imp_pkg.Anna.GetAge() => mark Anna (exported global struct) as used.
 							nextExprToCheck = append(nextExprToCheck, val.derive(t))
+						default: // People[0].Age, (*Anna).Age, f(Unused).Age => look inside the operand.
+							nextExprToCheck = append(nextExprToCheck, val.derive(t))
 						}
 					} else {
 						ident := n.X.(*ast.Ident)
